@@ -66,7 +66,10 @@ def rel_sig(v, digits):
 def draw_value(rnd, title):
     f = FMT.get(title, "f6")
     if f == "int":
-        return float(rnd.choice([0, 1, -1, 7, 65535, rnd.randint(-10 ** 6, 10 ** 6), 2 ** 53, -(2 ** 31)]))
+        # integer-typed titles usually hold whole numbers, but nothing rounds them before they are written: the text route
+        # documents a precision of half a unit for them, the HDF5 route stores the integer part
+        return float(rnd.choice([0, 1, -1, 7, 65535, rnd.randint(-10 ** 6, 10 ** 6), 2 ** 53, -(2 ** 31),
+                                 round(rnd.uniform(-10 ** 6, 10 ** 6), 2), -0.999, 0.4, 224475.66]))
     mag = rnd.choice([1e-12, 1e-6, 1e-3, 0.1, 1.0, 12.0, 1e3, 1e6, 1e12])
     v = rnd.uniform(-1, 1) * mag
     return rnd.choice([v, v, v, 0.0, -0.0, float(rnd.randint(-5, 5)), mag])
@@ -274,8 +277,7 @@ class C18(object):
             for i, v in enumerate(vals):
                 if exact:
                     if FMT.get(t) == "int":
-                        if (got.dtype.kind not in "iu" and not getattr(self, "values_only", False)) or not (float(got[i]) == float(v)) \
-                                or int(got[i]) != int(v):
+                        if (got.dtype.kind not in "iu" and not getattr(self, "values_only", False)) or float(got[i]) != float(int(v)):
                             return "%s: integer column %s row %d: saved %r, read %r (dtype %s)" % (where, t, i, v, got[i], got.dtype)
                     elif not (float(got[i]) == v) or (v == 0 and math.copysign(1.0, float(got[i])) != math.copysign(1.0, v)):
                         return "%s: column %s row %d: saved %r, read %r" % (where, t, i, v, float(got[i]))
